@@ -251,10 +251,15 @@ func c01Cell(col arrow.Array) []byte {
 		return nil
 	}
 	if b, ok := col.(*array.Binary); ok {
+		// Touch the value bytes even of a NULL cell, exactly as ReadUnaryResult does
+		// (bin.Value(0), no null check): on a column whose offsets are corrupted this panics here
+		// too, the walk reports the batch as unrenderable and the line is checked for panics only
+		// instead of being compared (a null cell with sound offsets reads as empty bytes).
+		v := b.Value(0)
 		if b.IsNull(0) {
 			return nil
 		}
-		return b.Value(0)
+		return v
 	}
 	return []byte(col.ValueStr(0))
 }
